@@ -79,14 +79,15 @@ def main():
             remaining -= 1
         steps.append([e[0], e[1]])
         return e[1]
-    def nearest_uncovered(start):
-        # BFS over all edges to the nearest node with an uncovered out-edge
+    def nearest_uncovered(start, budget):
+        # bounded BFS over all edges to the nearest node with an uncovered out-edge
         if uncovered[start] > 0:
             return []
         prev = {start: None}
         dq = collections.deque([start])
-        while dq:
+        while dq and budget > 0:
             u = dq.popleft()
+            budget -= 1
             for idx, (evt, v, _) in enumerate(out[u]):
                 if v not in prev:
                     prev[v] = (u, idx)
@@ -100,30 +101,44 @@ def main():
                         return p
                     dq.append(v)
         return None
+    # states in BFS order from init; new paths start at the first one that still has an uncovered out-edge
+    bfs_order = [init]
+    seen = {init}
+    dq = collections.deque([init])
+    while dq:
+        u = dq.popleft()
+        for (evt, v, _) in out[u]:
+            if v not in seen:
+                seen.add(v)
+                bfs_order.append(v)
+                dq.append(v)
+    ptr = 0
     while remaining > 0:
-        if len(steps) >= maxlen:
+        while ptr < len(bfs_order) and uncovered[bfs_order[ptr]] == 0:
+            ptr += 1
+        if ptr >= len(bfs_order):
+            break
+        if steps:
             paths.append(steps)
             steps = []
-            for (u, idx) in path_from_init(cur):
-                take(u, idx)
-        hop = nearest_uncovered(cur)
-        if hop is None:
-            # nothing reachable from here: restart from init
-            paths.append(steps)
-            steps = []
-            cur = init
-            hop = nearest_uncovered(cur)
-            if hop is None:
-                break
-        for (u, idx) in hop:
+        cur = init
+        for (u, idx) in path_from_init(bfs_order[ptr]):
             cur = take(u, idx)
-        # follow uncovered edges greedily, preferring successors that still have uncovered edges
-        while uncovered[cur] > 0 and len(steps) < maxlen:
+        while len(steps) < maxlen:
+            if uncovered[cur] == 0:
+                hop = nearest_uncovered(cur, 64)
+                if hop is None:
+                    break
+                for (u, idx) in hop:
+                    cur = take(u, idx)
+            # follow an uncovered edge, preferring successors that still have uncovered edges
             best = None
             for idx, e in enumerate(out[cur]):
                 if not e[2]:
                     if best is None or (uncovered[e[1]] > 0 and uncovered[out[cur][best][1]] == 0):
                         best = idx
+            if best is None:
+                break
             cur = take(cur, best)
     if steps:
         paths.append(steps)
